@@ -448,6 +448,7 @@ def c08(res, ctx):
 
 # ------------------------------------------------------------------ C10 (engine part) and C11
 def c10_engine(res):
+    c10_model_depth4(res)
     rng = random.Random(res.seed + 9)
     q = res.tier == 'quick'
     # fifty-move: static evaluation must not turn into a draw before 100 plies
@@ -478,7 +479,7 @@ def c10_engine(res):
         w = fen.split(' '); w[4] = str(h); return ' '.join(w)
     for h in (1, 3, 7, 20, 33) if q else (1, 2, 3, 5, 7, 9, 20, 33, 61, 90):
         combos += [(with_half(roots[0], h), lines[0]), (with_half(roots[0], h), lines[3]), (with_half(roots[1], h), lines2[0]), (with_half(roots[2], h), lines2[1])]
-    cases, meta = [], []
+    cases, meta, stale = [], [], []
     for root, l in combos:
         ms = l.split(' ')
         for n in range(2, len(ms)):
@@ -498,6 +499,10 @@ def c10_engine(res):
             cases.append('\t'.join(['position fen %s moves %s' % (root, ' '.join(prefix)), 'go depth 1 searchmoves ' + m]))
             cases.append('\t'.join(['position fen %s' % fens[-2], 'go depth 1 searchmoves ' + m]))
             meta.append((occ >= 2, fens[-1]))
+            # the same position given WITHOUT its history on an engine that was told the whole game before: the earlier
+            # position command must leave nothing behind (same ply indices, same parity)
+            stale.append(('\t'.join(['position fen %s moves %s' % (root, ' '.join(prefix)), 'go depth 1', 'position fen %s' % fens[-2], 'go depth 1 searchmoves ' + m]),
+                          '\t'.join(['ucinewgame', 'position fen %s moves %s' % (root, ' '.join(prefix)), 'go depth 1', 'ucinewgame', 'position fen %s' % fens[-2], 'go depth 1 searchmoves ' + m]), len(meta) - 1))
     obs = V.run_impl('session', cases)
     res.count('session-repetition', cases)
     def last_score(o):
@@ -505,12 +510,45 @@ def c10_engine(res):
         if not ss or not ss[-1][0]: return None
         sc = [i for i in ss[-1][0] if ' score ' in i]
         return ' '.join(parse_info(sc[-1])['score']) if sc else None
+    sobs = V.run_impl('session', [s for s, _, _ in stale] + [s for _, s, _ in stale])
+    res.count('session-stale-history', [s for s, _, _ in stale])
+    for j, (s1, s2, mi) in enumerate(stale):
+        without = last_score(obs[2 * mi + 1])
+        for variant, o in ((s1, sobs[j]), (s2, sobs[len(stale) + j])):
+            got = last_score(o)
+            if got != without:
+                if k < MAXREP: res.violation('session', variant, without, got, 'property', 'a position given without history is valued differently on an engine that saw another game before (stale repetition history)')
+                k += 1
     for i, (rep, fen_after) in enumerate(meta):
         with_hist, without = last_score(obs[2 * i]), last_score(obs[2 * i + 1])
         exp = 'cp 50' if rep else without
         if with_hist != exp:
             if k < MAXREP: res.violation('session', cases[2 * i], exp, with_hist, 'property', 'threefold repetition %s (position after the move: %s)' % ('not valued as a draw' if rep else 'claimed although the position has not occurred three times', fen_after))
             k += 1
+
+def c10_model_depth4(res):
+    """few-piece positions with a shuffling history searched to depth 4: lines return to the root and to history
+    positions; the engine must equal the Coq search model exactly (scores incl. the repetition leaves)"""
+    import gen_session
+    q = res.tier == 'quick'
+    roots = ['4k3/8/8/8/8/8/8/R3K2R w K - 4 40', '8/8/8/3k4/8/3K4/3Q4/8 w - - 6 30', '8/5k2/8/8/8/2K5/8/r7 b - - 2 50',
+             'nn4k1/6p1/8/7Q/8/8/rr6/7K w - - 0 1', '6k1/6p1/8/7Q/8/8/r7/7K w - - 3 12']
+    hist = {'4k3/8/8/8/8/8/8/R3K2R w K - 4 40': ['h1g1 e8d8 g1h1 d8e8', 'a1b1 e8d8 b1a1 d8e8 h1g1 e8d8 g1h1 d8e8'],
+            '8/8/8/3k4/8/3K4/3Q4/8 w - - 6 30': ['d2e2 d5d6 e2d2 d6d5', 'd3e3 d5e5 e3d3 e5d5'],
+            '8/5k2/8/8/8/2K5/8/r7 b - - 2 50': ['a1a2 c3d3 a2a1 d3c3'],
+            'nn4k1/6p1/8/7Q/8/8/rr6/7K w - - 0 1': ['h5e8 g8h7 e8h5 h7g8'],
+            '6k1/6p1/8/7Q/8/8/r7/7K w - - 3 12': ['h5e8 g8h7 e8h5 h7g8']}
+    cases = []
+    for r in roots:
+        for h in hist[r]:
+            for d in ((4,) if q else (3, 4, 5)):
+                cases.append('\t'.join(['position fen %s moves %s' % (r, h), 'go depth %d' % d]))
+    impl = V.run_impl('session', cases)
+    model = V.run_model('session', cases)
+    res.count('session-model-history-depth4', cases)
+    for c, i, m in zip(cases, impl, model):
+        if gen_session.normalise(i) != m:
+            res.tie_break('session', c, m[-500:], gen_session.normalise(i)[-500:])
 
 def c11(res, ctx):
     rng = random.Random(res.seed)
@@ -651,6 +689,9 @@ def c16(res, ctx):
     for tp in term[:10]:       # no iteration can complete on these roots: nothing may be carried over from the search before
         cases.append('\t'.join(['position startpos', 'go depth 3', 'position fen ' + tp, 'go depth 3', 'isready'])); meta.append(['rnbqkbnr/pppppppp/8/8/8/8/PPPPPPPP/RNBQKBNR w KQkq - 0 1', tp])
         cases.append('\t'.join(['position startpos', 'go depth 2', 'position startpos', 'go depth 2 searchmoves e2e5'])); meta.append(['rnbqkbnr/pppppppp/8/8/8/8/PPPPPPPP/RNBQKBNR w KQkq - 0 1'] * 2)
+    # a search longer than one second: time must keep growing past 1000 ms
+    cases.append('\t'.join(['position startpos', 'go movetime 1600'])); meta.append(['rnbqkbnr/pppppppp/8/8/8/8/PPPPPPPP/RNBQKBNR w KQkq - 0 1'])
+    cases.append('\t'.join(['position fen r3k2r/p1ppqpb1/bn2pnp1/3PN3/1p2P3/2N2Q1p/PPPBBPPP/R3K2R w KQkq - 0 1', 'go infinite', '@sleep 1400', 'stop'])); meta.append(['r3k2r/p1ppqpb1/bn2pnp1/3PN3/1p2P3/2N2Q1p/PPPBBPPP/R3K2R w KQkq - 0 1'])
     for _ in range(40 if q else 1500):
         n = rng.randint(2, 8)
         fields = ['uci', 'isready']
